@@ -7,11 +7,11 @@ PROP = "C18"
 RULE = ("cases = raw HTTP/1.1 requests (GET/POST/OPTIONS/HEAD/PUT/DELETE; with/without Origin, Access-Control-Request-Method, Access-Control-Request-Headers) against "
         "`samply load <profile> --no-open -P <port>+` servers (plain and .gz profile, several runs): paths without the token, the token path and its API/profile children, "
         "proper prefixes and extensions of the token, case variants, percent-encodings, //, /./, /x/../ decorations, the token in the query string or after another segment. "
-        "Observed: status, Access-Control-* / Allow / Content-Encoding headers, body class (empty / landing page / profile bytes / API JSON). Tokens of all runs, and of 2 x 4 further servers started at the same moment (same clock second, neighbouring pids): 39 chars of the nix-base32 alphabet, pairwise distinct. "
+        "Observed: status, Access-Control-* / Allow / Content-Encoding headers, body class (empty / landing page / profile bytes / API JSON). Tokens of all runs, and of 2 x 4 further servers started at the same moment (same clock second, neighbouring pids): 39 chars of the nix-base32 alphabet, pairwise distinct, and the 24 bytes each one encodes take at least 12 distinct values (24 random bytes do so with probability above 1 - 1e-20; a repeated byte, a short period or a counter does not). "
         "One evaluation = one server run (several hundred requests); non-trivial = the run contained requests whose path mentions the token (or a variant of it) without being served")
 TRUSTED = ["hyper's request parsing: req.uri().path() is the raw path before '?' (requests hyper rejects with 400 are judged by the property only)",
            "`samply load` always serves a profile, so the model's has_profile = false branch is proved but not exercised",
-           "unpredictability of the token cannot be proved; observed: length, alphabet, distinctness across runs including simultaneously started ones; translated from the source: the 24 bytes are filled by rand::rng().fill_bytes (c_token_from_os_rng)"]
+           "unpredictability of the token cannot be proved; observed: length, alphabet, distinctness across runs including simultaneously started ones, variety of the encoded bytes; translated from the source: the 24 bytes are filled by rand::rng().fill_bytes (c_token_from_os_rng)"]
 ASSUMPTIONS = ["the landing page served without the prefix embeds the token by design (it is served without CORS headers, which is what the property requires)"]
 
 METHODS = ["GET", "POST", "OPTIONS", "HEAD", "PUT", "DELETE"]
@@ -210,6 +210,31 @@ def _paths(tok):
             T + "/profile.json/", T + "/PROFILE.JSON", T + "//profile.json", T + "/./profile.json", T + "/../profile.json", "*"]
 
 
+NIX32 = "0123456789abcdfghijklmnpqrsvwxyz"
+
+
+def token_bytes(tok):
+    """the bytes a nix-base32 string encodes (the k-th character from the END holds bits 5k .. 5k+4 of the little-endian bit string); None if it is not one"""
+    if any(ch not in NIX32 for ch in tok):
+        return None
+    v = 0
+    for k, ch in enumerate(reversed(tok)):
+        v |= NIX32.index(ch) << (5 * k)
+    return v.to_bytes(len(tok) * 5 // 8 + 1, "little")[:len(tok) * 5 // 8]
+
+
+def token_guessable(tok):
+    """why an attacker could enumerate this token, or None: a token is 24 random bytes; among 24 uniformly random bytes fewer than 12 distinct values occur
+    with probability below 1e-20, so a token with that little variety was not produced by 24 independent random bytes - it belongs to a family (one byte
+    repeated, a short period, a counter) small enough to be tried exhaustively"""
+    b = token_bytes(tok)
+    if b is None or len(b) < 20:
+        return "it does not encode 20 or more bytes"
+    if len(set(b)) < 12:
+        return "its %d bytes take only %d distinct values (%s...)" % (len(b), len(set(b)), b[:6].hex())
+    return None
+
+
 def _simultaneous_tokens(samply, profile, n, port_base):
     """start n servers at the same moment (same clock second, consecutive pids) and return their tokens"""
     procs = [subprocess.Popen([samply, "load", profile, "--no-open", "-P", "%d+" % (port_base + 40 * i)], stdout=subprocess.PIPE, stderr=subprocess.DEVNULL, text=True)
@@ -324,6 +349,12 @@ def evaluate(cases):
         if len(set(alltok)) != len(alltok):
             verdicts[0] = 12
             cases[0]["_bad"] = ["tokens repeated across runs (%d runs, %d started simultaneously in groups of 4): %r" % (len(alltok), len(simul), sorted(t for t in set(alltok) if alltok.count(t) > 1)[:3])]
+        # "long enough not to be guessable": the bytes every observed token encodes must show the variety of 24 random bytes
+        weak = [(t, token_guessable(t)) for t in alltok if token_guessable(t)]
+        dist["tokens_examined_for_variety"] = len(alltok)
+        if weak:
+            verdicts[0] = 12
+            cases[0]["_bad"] = ["guessable token %s: %s; all %d tokens of this run: %r" % (weak[0][0], weak[0][1], len(alltok), alltok[:12])]
     finally:
         shutil.rmtree(d, ignore_errors=True)
     _last.update({"dist": dist, "samples": samples, "tokens": len(tokens)})
